@@ -1354,21 +1354,26 @@ class Quantity(metaclass=QuantityMeta):
                     raise QuantityError(f"Can't convert '{s_amount}' to a "
                                         "rational number.")
             if len(parts) > 1:
-                s_sym = parts[1].strip()
+                s_sym = parts[1]
                 try:
+                    # a symbol may have blanks at its ends, so try it as it
+                    # is written first
                     unit_from_sym = _unit_from_symbol(s_sym)
                 except KeyError:
-                    raise QuantityError(f"Unknown symbol '{s_sym}'.") \
-                        from None
+                    s_sym = s_sym.strip()
+                    try:
+                        unit_from_sym = _unit_from_symbol(s_sym)
+                    except KeyError:
+                        raise QuantityError(f"Unknown symbol '{s_sym}'.") \
+                            from None
+                if unit is None:
+                    unit = unit_from_sym
+                elif unit is unit_from_sym:
+                    pass
                 else:
-                    if unit is None:
-                        unit = unit_from_sym
-                    elif unit is unit_from_sym:
-                        pass
-                    else:
-                        assert unit_from_sym.qty_cls is not None
-                        qty = unit_from_sym.qty_cls(amnt, unit_from_sym)
-                        return qty.convert(unit)
+                    assert unit_from_sym.qty_cls is not None
+                    qty = unit_from_sym.qty_cls(amnt, unit_from_sym)
+                    return qty.convert(unit)
         else:
             raise TypeError("Given amount must be a number or a string "
                             "that can be converted to a number.")
